@@ -163,6 +163,10 @@ func pluginAccept(mux *plugin.MuxBroker, gb *plugin.GRPCBroker, r vp.Req) vp.Res
 			time.Sleep(time.Duration(r.N) * time.Millisecond)
 		}
 		gb.AcceptAndServe(id, func(opts []grpc.ServerOption) *grpc.Server {
+			if r.K == "slow" {
+				// a brokered server that takes a while to set up: the stream may arrive before it calls Accept
+				time.Sleep(time.Duration(r.N2) * time.Millisecond)
+			}
 			s := grpc.NewServer(opts...)
 			vp.Register(s, whoHandler(id), gb)
 			return s
@@ -201,6 +205,14 @@ func pluginDial(mux *plugin.MuxBroker, gb *plugin.GRPCBroker, r vp.Req) vp.Resp 
 	out, err := vp.NewGRPCCaller(cc, gb).Call(vp.Req{Op: "who"})
 	if err != nil {
 		return vp.Resp{Err: "call: " + err.Error()}
+	}
+	if r.K == "peer-tls" {
+		// also report how the serving (host) side sees this connection
+		sec, err := vp.NewGRPCCaller(cc, gb).Call(vp.Req{Op: "peer-tls"})
+		if err != nil {
+			return vp.Resp{Err: "call: " + err.Error()}
+		}
+		return vp.Resp{ID: out.ID, S: sec.S}
 	}
 	return vp.Resp{ID: out.ID, S: out.S}
 }
